@@ -17,11 +17,20 @@
    image_canonical / rt_read_write of C04 and create_stog_stable).  The builders as found are
    refuted by witnesses (the _found_refuted theorems); solution_netlist_found_partial says what the code as
    found did preserve.  With a non-empty result solution_to_netlist replaces rectangles: the
-   document is then compared by the correspondence and the oracle only. *)
+   document is then compared by the correspondence and the oracle only.
+
+   Entry forms (Yaml/ProducersText.v): read_yaml - the tree, the text-or-file-name test on a
+   string, the open stream - mirrors the REPAIRED code (fixes/C19-read-yaml-text.diff: a string
+   with ': ' or a line break is a text; fixes/C19-read-yaml-stream.diff: io.TextIOBase streams are
+   accepted).  The text layer (ruamel) is a Section variable with the contract load (dump t) = t
+   and "the written text looks as text_of t says" (compared with the real text on every case).
+   written_text_is_text, read_yaml_forms, alloc_forms_rt, die_forms_rt: PROVED; the dispatch as
+   found is characterised on allocations (alloc_text_found) and refuted by the allocation without
+   occupied cell (read_yaml_text_found_refuted) and on every stream (read_yaml_stream_found_refuted). *)
 From FrameModel Require Import Num.QcTac Geometry.Rect Alloc.Alloc Yaml.Tree Yaml.NetlistRead Yaml.NetlistWrite
   Yaml.Netgen Yaml.NetgenFacts Yaml.NetgenHTree Yaml.DieAlloc Yaml.DieAllocFacts Yaml.Producers
   Yaml.ProducersFacts Yaml.ProducersPartial Yaml.ProducersRT Yaml.ProducersFloat Yaml.ProducersAlloc
-  Yaml.NetgenGridCenters.
+  Yaml.NetgenGridCenters Yaml.ProducersText Yaml.ProducersTextFacts Yaml.ProducersTwin.
 Open Scope Qc_scope.
 
 (* ---------------- the die ---------------- *)
@@ -202,6 +211,18 @@ Theorem C19_legal_rt_example : forall sqrt_o,
 Proof. exact legal_rt_example. Qed.
 Print Assumptions C19_legal_rt_example.
 
+(* the round trips include the tie of create_stog: a module of two congruent rectangles sharing a
+   whole side (both can be the trunk, equal areas) keeps the rectangle listed first in front through
+   solution_to_netlist, legal_netlist and the reader *)
+Theorem C19_twin_rectangles_example : forall sqrt_o,
+  exists n n' t n'',
+    read_netlist sqrt_o eps_ref twin_doc = Ok n /\ buildable n /\
+    rect_order n = [[(qc 503 1, TRUNK); (qc 501 1, WEST)]] /\
+    read_netlist sqrt_o eps_ref (solution_to_netlist n []) = Ok n' /\ rect_order n' = rect_order n /\
+    legal_netlist n = Some t /\ read_netlist sqrt_o eps_ref t = Ok n'' /\ rect_order n'' = rect_order n.
+Proof. exact twin_example. Qed.
+Print Assumptions C19_twin_rectangles_example.
+
 (* ---------------- the string builders as found ---------------- *)
 Definition C19_solution_found_rt_statement : Prop := solution_found_rt_statement.
 Definition C19_legal_found_rt_statement : Prop := legal_found_rt_statement.
@@ -241,3 +262,86 @@ Theorem C19_alloc_netlist_found_refuted :
     netlist_doc [("M2"%string, YMap [(KW_AREA, yfloat (qc 4 1)); (KW_CENTER, YList [yfloat (qc 5 1); yfloat (qc 1 1)])])] [].
 Proof. exact alloc_netlist_found_refuted. Qed.
 Print Assumptions C19_alloc_netlist_found_refuted.
+
+(* ---------------- the entry forms of the readers (read_yaml, repaired) ---------------- *)
+(* whatever tree a writer hands to write_yaml, the text has a line break and the string test of
+   read_yaml takes it for a text, not for a file name *)
+Theorem C19_written_text_is_text : forall t, string_route (text_of t) = ParseText.
+Proof. exact written_text_is_text. Qed.
+Print Assumptions C19_written_text_is_text.
+
+(* with a text layer that reads back what it wrote: the tree, the text write_yaml() returned, the
+   name of a file holding that text and a stream opened on it all hand the written tree to the reader *)
+Theorem C19_read_yaml_forms :
+  forall (text : Type) (dump : ytree -> text) (load : text -> option ytree) (looks : text -> text_abs)
+         (file : text -> option text),
+    (forall t, load (dump t) = Some t) -> (forall t, looks (dump t) = text_of t) ->
+    forall t name, file name = Some (dump t) -> string_route (looks name) = OpenFile ->
+    forall src, In src (forms_of text dump t name) -> read_yaml text load looks file src = Some t.
+Proof. exact read_yaml_forms. Qed.
+Print Assumptions C19_read_yaml_forms.
+
+(* the hypothesis on the name holds of a string without ': ' and without line break *)
+Example C19_file_name_example :
+  string_route (abs_of_string "/tmp/allocations/a_1.yaml") = OpenFile /\
+  string_route (abs_of_string empty_cells_text) = ParseText /\
+  abs_of_string empty_cells_text = text_of (write_alloc empty_cells).
+Proof. exact file_name_example. Qed.
+
+(* Allocation(...) and Die(...) on every entry form of a written allocation / die *)
+Theorem C19_alloc_forms_rt :
+  forall (text : Type) (dump : ytree -> text) (load : text -> option ytree) (looks : text -> text_abs)
+         (file : text -> option text),
+    (forall t, load (dump t) = Some t) -> (forall t, looks (dump t) = text_of t) ->
+    forall aeps cells name,
+    accepted aeps cells -> forallb cell_region_ok cells = true ->
+    file name = Some (dump (write_alloc cells)) -> string_route (looks name) = OpenFile ->
+    forall src, In src (forms_of text dump (write_alloc cells) name) ->
+    allocation_of text load looks file aeps src = Some (map plain_cell cells).
+Proof. exact alloc_forms_rt. Qed.
+Print Assumptions C19_alloc_forms_rt.
+
+Theorem C19_die_forms_rt :
+  forall (text : Type) (dump : ytree -> text) (load : text -> option ytree) (looks : text -> text_abs)
+         (file : text -> option text),
+    (forall t, load (dump t) = Some t) -> (forall t, looks (dump t) = text_of t) ->
+    forall d name,
+    die_wfb d = true ->
+    file name = Some (dump (write_die d)) -> string_route (looks name) = OpenFile ->
+    forall src, In src (forms_of text dump (write_die d) name) ->
+    die_of text load looks file src = Some (mkDie (dw d) (dh d) (map plain (dblock d)) (map plain (dspec d))).
+Proof. exact die_forms_rt. Qed.
+Print Assumptions C19_die_forms_rt.
+
+(* ---------------- read_yaml as found ---------------- *)
+(* the string test as found (': ' only) takes the text of a die for a text, and the text of an
+   allocation exactly when some cell is occupied *)
+Theorem C19_die_text_found : forall d, string_route_found (text_of (write_die d)) = ParseText.
+Proof. exact die_text_found. Qed.
+Print Assumptions C19_die_text_found.
+
+Theorem C19_alloc_text_found : forall cells,
+  forallb cell_region_ok cells = true ->
+  string_route_found (text_of (write_alloc cells)) = if existsb occupied cells then ParseText else OpenFile.
+Proof. exact alloc_text_found. Qed.
+Print Assumptions C19_alloc_text_found.
+
+(* Allocation([[[1,1,2,2,'_'],{}],[[3,1,2,2,'_'],{}]]) is accepted, its text has no ': ': as found
+   the reader looks for a file of that name (FileNotFoundError), repaired it gets the tree back *)
+Theorem C19_read_yaml_text_found_refuted :
+  accepted 0 empty_cells /\ forallb cell_region_ok empty_cells = true /\
+  forall (text : Type) (dump : ytree -> text) (load : text -> option ytree) (looks : text -> text_abs)
+         (file : text -> option text),
+    (forall t, load (dump t) = Some t) -> (forall t, looks (dump t) = text_of t) ->
+    file (dump (write_alloc empty_cells)) = None ->
+    read_yaml_found text load looks file (SrcString (dump (write_alloc empty_cells))) = None /\
+    read_yaml text load looks file (SrcString (dump (write_alloc empty_cells))) = Some (write_alloc empty_cells).
+Proof. exact alloc_text_found_refuted. Qed.
+Print Assumptions C19_read_yaml_text_found_refuted.
+
+(* as found no stream is accepted: isinstance(stream, typing.TextIO) holds of no real stream *)
+Theorem C19_read_yaml_stream_found_refuted :
+  forall (text : Type) (load : text -> option ytree) (looks : text -> text_abs) (file : text -> option text) c,
+    read_yaml_found text load looks file (SrcStream c) = None.
+Proof. exact read_yaml_found_stream. Qed.
+Print Assumptions C19_read_yaml_stream_found_refuted.
